@@ -11,7 +11,7 @@ using C = cappuccino::ut_set<uint64_t, cappuccino::thread_safe::TS>;
 #define T_NAME "utmap"
 #define T_VALUE 1
 #define T_HAS_CLEAR 1
-using C = cappuccino::ut_map<uint64_t, uint64_t, cappuccino::thread_safe::TS>;
+using C = cappuccino::ut_map<uint64_t, VAL_T, cappuccino::thread_safe::TS>;
 #endif
 #define T_POLICY P_NONE
 #define T_TTL 2
@@ -28,7 +28,7 @@ static bool x_insert(C& c, uint64_t k, uint64_t v, uint8_t a, int64_t)
 #ifdef C_IS_UTSET
     return c.insert(k, (cappuccino::allow)a);
 #else
-    return c.insert(k, v, (cappuccino::allow)a);
+    return c.insert(k, VAL_T(v), (cappuccino::allow)a);
 #endif
 }
 static bool x_erase(C& c, uint64_t k) { return c.erase(k); }
@@ -40,7 +40,7 @@ static void x_find(C& c, uint64_t k, bool, Res& r)
 #else
     auto o = c.find(k);
     r.ok   = o.has_value();
-    r.val  = r.ok ? *o : 0;
+    r.val  = r.ok ? val_u(*o) : 0;
 #endif
     r.cnt = 0;
 }
@@ -60,7 +60,7 @@ static void alpha_real(C& c, Abs& a)
             {
                 key = m->first;
 #ifndef C_IS_UTSET
-                a.v[p] = m->second.m_value;
+                a.v[p] = val_u(m->second.m_value);
 #endif
             }
         a.k[p] = key;
